@@ -32,6 +32,11 @@ HTTPRIG = ["pkg/object/httpserver", "harness/common/httpserver"]
 TOPICINSTR = {"file": "pkg/object/mqttproxy/topic.go", "need_vrt": True,
                 "replace": [{"old": "for nodeLevel, nextNode := range node.nodes {",
                              "new": "for _, nodeLevel := range zzvrt.StringKeys(node.nodes, \"findSubscribers\") {\n\t\t\t\tnextNode := node.nodes[nodeLevel]"}]}
+BROKERRIG = ["pkg/object/mqttproxy", "harness/common/mqttproxy"]
+BROKERINSTR = [{"file": "pkg/object/mqttproxy/broker.go", "imports": {"net": "vnet"}, "need_vrt": True,
+                "replace": [{"old": "for clientID, subQoS := range subscribers {",
+                             "new": "for _, clientID := range zzvrt.StringKeys(subscribers, \"sendMsgToClient\") {\n\t\tsubQoS := subscribers[clientID]"}]},
+               TOPICINSTR]
 # the real HTTPServer runtime on an in-memory listener (shared by C17 and C11; the harness lives in harness/C17/httpruntime)
 RUNTIMEUNIT = {"name": "httpruntime", "pkg": "pkg/object/httpserver", "test": "TestVerifC17rt", "inject": [HTTPRIG, ["pkg/object/httpserver", "harness/C17/httpruntime"]],
                "instrument": [{"file": "pkg/object/httpserver/runtime.go", "add_imports": {"zzvnet": "vnet"},
@@ -116,6 +121,9 @@ CHECKS["C14"] = {
     "assumptions": ["session persistence (store goroutines) is not observed here (C16)"],
     "units": [
         {"name": "mqttproxy", "pkg": "pkg/object/mqttproxy", "test": "TestVerifC14", "instrument": [TOPICINSTR]},
+        # connection-level histories (reconnect, take-over, admin delete ...) on the real broker: harness shared with C16; what is
+        # routed to the current connection must be exactly its live subscriptions
+        {"name": "sessions", "pkg": "pkg/object/mqttproxy", "test": "TestVerifC16", "inject": [BROKERRIG, ["pkg/object/mqttproxy", "harness/C16/mqttproxy"]], "instrument": BROKERINSTR},
     ],
 }
 
@@ -208,12 +216,6 @@ CHECKS["C06"] = {
         {"name": "validator", "pkg": "pkg/filters/validator", "test": "TestVerifC06", "workers": 4},
     ],
 }
-
-BROKERRIG = ["pkg/object/mqttproxy", "harness/common/mqttproxy"]
-BROKERINSTR = [{"file": "pkg/object/mqttproxy/broker.go", "imports": {"net": "vnet"}, "need_vrt": True,
-                "replace": [{"old": "for clientID, subQoS := range subscribers {",
-                             "new": "for _, clientID := range zzvrt.StringKeys(subscribers, \"sendMsgToClient\") {\n\t\tsubQoS := subscribers[clientID]"}]},
-               TOPICINSTR]
 
 CHECKS["C15"] = {
     "level": "model_checking",
